@@ -650,7 +650,7 @@ theorem handler_newacronym (hh : HandlerArgs .newacronym args) :
   refine Post_argBind args 2 _ st _ (arity_lt hh (by decide)) (fun a2 h2 ea2 => ?_)
   exact modDesc_step IH (Good_refl T nroot st hg) a2 (ha a2 h2)
 
-include hw IH hg ha in
+include hw IH hg ha hp in
 theorem handler_newcommand (hh : HandlerArgs .newcommand args) :
     Post (callHandler T (fuel + 1) .newcommand buf mac args pos st)
       (fun r st' => Good T nroot st st' ∧ BL T st.latex.length r) := by
@@ -666,6 +666,9 @@ theorem handler_newcommand (hh : HandlerArgs .newcommand args) :
     have hA3 := ha a3 h3
     have hA4 := ha a4 h4
     generalize (if (!List.isEmpty ns && _) = true then _ else 0) = nargs
+    split
+    · -- more than nine parameters: an error mark at the position of the call
+      exact latexError_step T hw hs _ _ hp
     generalize hf : List.find? _ a4 = o
     cases o with
     | some bad =>
@@ -835,7 +838,7 @@ theorem handler_step (hw : T.WFInv) (nroot fuel : Nat) (IH : AllSpecs T nroot fu
   intro h buf mac args pos st hg _hb ha hp hh
   cases h with
   | none => exact handler_none buf mac args pos st hg
-  | newcommand => exact handler_newcommand hw IH buf mac args pos st hg ha hh
+  | newcommand => exact handler_newcommand hw IH buf mac args pos st hg ha hp hh
   | newtheorem => exact handler_newtheorem IH buf mac args pos st hg ha hh
   | «theorem» title => exact handler_theorem buf mac args pos st hg ha hp title hh
   | heading => exact handler_heading IH buf mac args pos st hg ha hh
